@@ -282,6 +282,11 @@ def check(ctx, rep):
                        any(kw.arg == 'unsigned' and norm(kw.value) == 'True' for kw in rd.keywords), short(rd), ctx.where(rd))
                 if okc and not any(kw.arg == 'unsigned' and norm(kw.value) == 'True' for kw in conv.keywords) and len(conv.args) < 2:
                     signed_operands.append(p)
+                elif okc:
+                    # Integer.from_int(unsigned=True) wraps negatives once by 65536: -65536..-32769 would be accepted silently
+                    rep.ob('bitwise.rejects-below-minus-32768', '%s: operand %s is not converted with the wrapping unsigned conversion alone' % (fn.name, p),
+                           False, 'to_integer(%s, unsigned=True) accepts -65536..-32769 and wraps them (e.g. -1 %s -40000 gives a value instead of Overflow), and treats this operand unlike its sibling'
+                           % (p, fn.name.rstrip('_').upper()), ctx.where(rd))
         rep.ob('bitwise.accepts-operands-up-to-65535', '%s: operands converted with to_integer(x, unsigned=True)' % fn.name,
                not signed_operands,
                'operands %s are converted signed: values 32768..65535 raise Overflow (e.g. PRINT 1 %s 65535)' % (
@@ -378,6 +383,8 @@ def variants(ctx):
         Va('from-int-wrap-unconditional', 'break', N,
            in_fn('Integer.from_int', lambda fn: mu.replace_expr(fn, mu.text_is('in_int < 0'), 'in_int < 0x8000')),
            expect='range.from_int'),
+        Va('imp-right-operand-wrapping-conversion', 'break', V,
+           in_fn('imp_', lambda fn: mu.replace_expr(fn, mu.text_is('to_integer(right)'), 'to_integer(right, unsigned=True)')), expect='bitwise.rejects-below-minus-32768'),
         Va('intdiv-not-float-safe', 'break', V, in_fn('intdiv', lambda fn: mu.remove_decorator(fn, 'float_safe')), expect='interceptor'),
         Va('handler-maps-zero-div-to-overflow', 'break', V,
            in_fn('FloatErrorHandler.handle', lambda fn: mu.replace_expr(fn, mu.text_is('error.DIVISION_BY_ZERO'), 'error.OVERFLOW')),
